@@ -7,4 +7,9 @@ mkdir -p .build evidence
 GOTOOLCHAIN=local go build -o .build/vgen ./engine/vgen
 .build/vgen -repo ${VERIF_REPO:-/repo} -verif "$PWD" -out "$PWD/.build/gen" >/dev/null
 ( cd ${VERIF_REPO:-/repo} && go test -c -tags verif -overlay "$OLDPWD/.build/gen/overlay.json" -vet=off -o /dev/null ./internal/server )
+# race-pass binary (unmodified package + harness_race) to warm the -race build cache
+.build/vgen -repo ${VERIF_REPO:-/repo} -verif "$PWD" -out "$PWD/.build/gen-race" -mode race >/dev/null
+( cd ${VERIF_REPO:-/repo} && go test -c -race -tags verifrace -overlay "$OLDPWD/.build/gen-race/overlay.json" -vet=off -o /dev/null ./internal/server )
+# the other harness packages
+( cd ${VERIF_REPO:-/repo} && go test -c -tags verif -overlay "$OLDPWD/.build/gen/overlay.json" -vet=off -o /dev/null ./internal/collection && go test -c -tags verif -overlay "$OLDPWD/.build/gen/overlay.json" -vet=off -o /dev/null ./internal/glob )
 echo setup ok
